@@ -8,7 +8,9 @@ package h_c01
 
 import (
 	"encoding/base64"
+	"fmt"
 	"strings"
+	"sync"
 	"time"
 
 	"github.com/miekg/dns"
@@ -597,8 +599,59 @@ func attackerKey(c *vkTamperCtx) *zonemodel.Key {
 	return zonemodel.GenKey("attacker", c.zone.Apex, "zsk", zonemodel.AlgED25519, 256)
 }
 
+var vkKSKClones sync.Map // zone apex + tag -> *zonemodel.Key | false
+
+// attackerKSKClone is a key the ATTACKER generated that shares owner, flags, algorithm and key tag
+// with the zone's DS-matched KSK (about 2^16 key generations; ECDSA and Ed25519 zones only).
+func attackerKSKClone(c *vkTamperCtx) *zonemodel.Key {
+	ksk := c.zone.KSK
+	if ksk == nil {
+		return nil
+	}
+	alg := ksk.DNSKEY.Algorithm
+	if alg != zonemodel.AlgED25519 && alg != zonemodel.AlgECDSAP256 {
+		return nil
+	}
+	id := fmt.Sprintf("%s|%d|%d", c.zone.Apex, alg, ksk.Tag)
+	if v, ok := vkKSKClones.Load(id); ok {
+		k, _ := v.(*zonemodel.Key)
+		return k
+	}
+	for i := 0; i < 1<<20; i++ {
+		k := zonemodel.GenKey(fmt.Sprintf("kskclone-%s-%d", id, i), c.zone.Apex, "ksk", alg, ksk.DNSKEY.Flags)
+		if k.Tag == ksk.Tag && k.DNSKEY.PublicKey != ksk.DNSKEY.PublicKey {
+			vkKSKClones.Store(id, k)
+			return k
+		}
+	}
+	vkKSKClones.Store(id, false)
+	return nil
+}
+
 func init() {
 	vkKinds = append(vkKinds,
+		vkKind{"attacker-ksk-clone-selfsigned", 0, func(c *vkTamperCtx, m *dns.Msg) bool {
+			// as attacker-key-selfsigned, but the attacker's key COLLIDES with the DS-matched KSK in owner,
+			// flags, algorithm and key tag: the DS still authenticates only the genuine key's material
+			if c.q.Qtype != dns.TypeDNSKEY || c.zone == nil || !c.zone.Mode.Signed() || !strings.EqualFold(zonemodel.Canon(c.q.Name), c.zone.Apex) {
+				return false
+			}
+			var set []dns.RR
+			for _, rr := range m.Answer {
+				if rr.Header().Rrtype == dns.TypeDNSKEY {
+					set = append(set, rr)
+				}
+			}
+			k := attackerKSKClone(c)
+			if len(set) == 0 || k == nil {
+				return false
+			}
+			ak := dns.Copy(k.DNSKEY)
+			ak.Header().Ttl = set[0].Header().Ttl
+			set = append(set, ak)
+			m.Answer = append(set, zonemodel.SignWith(k, c.zone.Apex, set, time.Now()))
+			return true
+		}},
 		vkKind{"attacker-key", 0, func(c *vkTamperCtx, m *dns.Msg) bool {
 			// DNSKEY response: the attacker's own key added to the RRset, signatures removed
 			if c.q.Qtype != dns.TypeDNSKEY || c.zone == nil || !c.zone.Mode.Signed() || !strings.EqualFold(zonemodel.Canon(c.q.Name), c.zone.Apex) {
@@ -641,55 +694,71 @@ func init() {
 			return true
 		}},
 		vkKind{"attacker-resign", 0, func(c *vkTamperCtx, m *dns.Msg) bool {
-			// altered data, every in-zone RRset re-signed with the attacker's key under the zone's name
-			if c.zone == nil || !c.zone.Mode.Signed() || c.q.Qtype == dns.TypeDNSKEY {
+			if c.zone == nil {
 				return false
 			}
-			altered := flipIn(m.Answer, false)
-			if !altered {
-				for i, rr := range m.Ns {
-					if t := rr.Header().Rrtype; t == dns.TypeNS || isSigLike(t) {
-						continue
-					}
-					if f := flipRR(rr); f != nil {
-						m.Ns[i] = f
-						altered = true
-					}
-					break
-				}
-			}
-			if !altered {
+			return vkResignWith(c, m, attackerKey(c))
+		}},
+		vkKind{"attacker-resign-kskclone", 0, func(c *vkTamperCtx, m *dns.Msg) bool {
+			if c.zone == nil {
 				return false
 			}
-			k := attackerKey(c)
-			resign := func(sec []dns.RR, authority bool) []dns.RR {
-				var out []dns.RR
-				var order []string
-				groups := map[string][]dns.RR{}
-				for _, rr := range sec {
-					h := rr.Header()
-					if h.Rrtype == dns.TypeRRSIG {
-						continue
-					}
-					out = append(out, rr)
-					if (authority && h.Rrtype == dns.TypeNS && !m.Authoritative) || !dns.IsSubDomain(c.zone.Apex, h.Name) {
-						continue
-					}
-					id := strings.ToLower(h.Name) + "|" + dns.TypeToString[h.Rrtype]
-					if groups[id] == nil {
-						order = append(order, id)
-					}
-					groups[id] = append(groups[id], rr)
-				}
-				for _, id := range order {
-					out = append(out, zonemodel.SignWith(k, c.zone.Apex, groups[id], time.Now()))
-				}
-				return out
-			}
-			m.Answer, m.Ns = resign(m.Answer, false), resign(m.Ns, true)
-			return true
+			return vkResignWith(c, m, attackerKSKClone(c))
 		}},
 	)
+}
+
+// vkResignWith: altered data, every in-zone RRset re-signed with key k under the zone's name.
+func vkResignWith(c *vkTamperCtx, m *dns.Msg, k *zonemodel.Key) bool {
+	if k == nil {
+		return false
+	}
+	// altered data, every in-zone RRset re-signed with the attacker's key under the zone's name
+	if c.zone == nil || !c.zone.Mode.Signed() || c.q.Qtype == dns.TypeDNSKEY {
+		return false
+	}
+	altered := flipIn(m.Answer, false)
+	if !altered {
+		for i, rr := range m.Ns {
+			if t := rr.Header().Rrtype; t == dns.TypeNS || isSigLike(t) {
+				continue
+			}
+			if f := flipRR(rr); f != nil {
+				m.Ns[i] = f
+				altered = true
+			}
+			break
+		}
+	}
+	if !altered {
+		return false
+	}
+	resign := func(sec []dns.RR, authority bool) []dns.RR {
+		var out []dns.RR
+		var order []string
+		groups := map[string][]dns.RR{}
+		for _, rr := range sec {
+			h := rr.Header()
+			if h.Rrtype == dns.TypeRRSIG {
+				continue
+			}
+			out = append(out, rr)
+			if (authority && h.Rrtype == dns.TypeNS && !m.Authoritative) || !dns.IsSubDomain(c.zone.Apex, h.Name) {
+				continue
+			}
+			id := strings.ToLower(h.Name) + "|" + dns.TypeToString[h.Rrtype]
+			if groups[id] == nil {
+				order = append(order, id)
+			}
+			groups[id] = append(groups[id], rr)
+		}
+		for _, id := range order {
+			out = append(out, zonemodel.SignWith(k, c.zone.Apex, groups[id], time.Now()))
+		}
+		return out
+	}
+	m.Answer, m.Ns = resign(m.Answer, false), resign(m.Ns, true)
+	return true
 }
 
 // replayOld: the first answer RRset replaced by altered data that the ZONE ITSELF signed, with a
